@@ -980,6 +980,9 @@ func (c *Ctx) initGlobal(p *Proc, o *types.Var, name string, s Sort) {
 				c.ptrGlobals = append(c.ptrGlobals, name)
 			}
 		}
+		if fn, ok := info.Uses[calleeIdent(x)].(*types.Func); ok && fn.Pkg() != nil && ((fn.Pkg().Path() == "errors" && fn.Name() == "New") || (fn.Pkg().Path() == "fmt" && fn.Name() == "Errorf")) && s == SIface {
+			c.addAxiom(name, fmt.Sprintf("(assert (and ((_ is iface_ptr) %s) (not (= (iptr %s) 0)) (= (itag %s) %d)))", name, name, name, c.typeTag(types.NewPointer(types.Typ[types.Invalid]))))
+		}
 		if tv, ok := info.Types[x.Fun]; ok && tv.IsType() {
 			// []byte("null") etc: a slice with known content
 			if bl, ok := x.Args[0].(*ast.BasicLit); ok && bl.Kind == token.STRING && s == SSlice {
